@@ -33,21 +33,22 @@ var tyNames = []string{"number", "boolean", "string"}
 
 func (c02) Thresholds(tier string) map[string]int64 {
 	th := map[string]int64{
-		"expressions":               20000,
-		"printing:minimal":          6000,
-		"printing:full":             6000,
-		"printing:redundant":        6000,
-		"precedence-decides":        3000,
-		"short-circuit":             1000,
-		"short-circuit-skips-probe": 100,
-		"planted-fault-reached":     500,
-		"planted-fault-skipped":     30,
-		"context:call":              2000,
-		"context:line":              2000,
-		"context:set":               2000,
-		"context:if":                300,
-		"context:command":           1000,
-		"table-rows":                500,
+		"expressions":                               20000,
+		"comparison-of-numbers-a-few-ulps-apart":    3000,
+		"printing:minimal":                          6000,
+		"printing:full":                             6000,
+		"printing:redundant":                        6000,
+		"precedence-decides":                        3000,
+		"short-circuit":                             1000,
+		"short-circuit-skips-probe":                 100,
+		"planted-fault-reached":                     500,
+		"planted-fault-skipped":                     30,
+		"context:call":                              2000,
+		"context:line":                              2000,
+		"context:set":                               2000,
+		"context:if":                                300,
+		"context:command":                           1000,
+		"table-rows":                                500,
 		"expressions-evaluated-twice-by-one-runner": 8000,
 		"side-effecting-operand-or-argument":        2000,
 		"stacked-unary-operators":                   10,
@@ -81,7 +82,7 @@ func (c02) Exhaustive(tier string) (bool, string) {
 }
 
 func (c02) Rule() string {
-	return "case 0 = the complete operator table (every binary operator x every ordered pair of operand types, every unary operator x every type, operands as literals and as variables pre-loaded through the store so that -0, NaN and +-Inf occur). Every other case = 30 random typed expression trees (depth <=6) over literals, pre-loaded variables, built-ins and logged probe calls p(id,v); each tree is printed three ways (minimal parentheses by the grammar's precedence/associativity, fully parenthesised, minimal + redundant parentheses) with a PRNG operator spelling per occurrence, and one tree in four gets one planted ill-typed leaf at a PRNG position; four more expressions per case use bump(), a host function that increments a variable through the store, next to reads of that variable, so that the order in which operands and arguments are evaluated is observable. Each printing is placed in one of: <<call cap(id, E)>>, a line {E}, <<set $r to E>>, <<if E>>, a command argument {E}. Half of the scripts loop once through a jump so that the same runner evaluates every statement twice on the same parsed tree, the second time with other values in the variables. Oracle: the reference evaluator - typed value (bit-exact, any NaN = any NaN), error/no error, and the ordered log of probe invocations (short-circuit, left-to-right single evaluation). Non-trivial: >=2 operators of different precedence levels, or a short-circuit that skips a probe, or a planted fault that is reached. Distinct by hash of the printed expression."
+	return "case 0 = the complete operator table (every binary operator x every ordered pair of operand types, every unary operator x every type, operands as literals and as variables pre-loaded through the store so that -0, NaN and +-Inf occur). Every other case = 30 random typed expression trees (depth <=6) over literals, pre-loaded variables, built-ins and logged probe calls p(id,v); each tree is printed three ways (minimal parentheses by the grammar's precedence/associativity, fully parenthesised, minimal + redundant parentheses) with a PRNG operator spelling per occurrence, and one tree in four gets one planted ill-typed leaf at a PRNG position; four more expressions per case use bump(), a host function that increments a variable through the store, next to reads of that variable, so that the order in which operands and arguments are evaluated is observable. four more compare numbers that are 1-40 units in the last place apart (0.1+0.2 with 0.3, 2^53 with 2^53+2, 1 with its successor, 435 with 4.35*100): ==, !=, <, <=, >, >= are exact. Each printing is placed in one of: <<call cap(id, E)>>, a line {E}, <<set $r to E>>, <<if E>>, a command argument {E}. Half of the scripts loop once through a jump so that the same runner evaluates every statement twice on the same parsed tree, the second time with other values in the variables. Oracle: the reference evaluator - typed value (bit-exact, any NaN = any NaN), error/no error, and the ordered log of probe invocations (short-circuit, left-to-right single evaluation). Non-trivial: >=2 operators of different precedence levels, or a short-circuit that skips a probe, or a planted fault that is reached. Distinct by hash of the printed expression."
 }
 
 func (c02) Assumptions() []string {
@@ -186,6 +187,10 @@ var c02Pre = map[string]model.Val{
 	"b1": model.B(true), "b2": model.B(false),
 	"s1": model.S("left"), "s2": model.S(""), "s3": model.S("Ünï"),
 	"pass": model.N(0), "cnt": model.N(0),
+	// pairs of different doubles that are 1 to 40 units in the last place apart: comparisons are exact
+	"c1a": model.N(0.1 + 0.2), "c1b": model.N(0.3), "c2a": model.N(9007199254740992), "c2b": model.N(9007199254740994),
+	"c3a": model.N(1), "c3b": model.N(math.Nextafter(1, 2)), "c4a": model.N(1e-300), "c4b": model.N(1e-300 * (1 + 40*0x1p-52)),
+	"c5a": model.N(435), "c5b": model.N(4.35 * 100),
 }
 
 func c02Scope(id *int) *gen.Scope {
@@ -290,6 +295,32 @@ func (p c02) Run(c *core.Ctx) {
 			items = append(items, exprItem{stmt: st, printed: lay.Expr(e), kind: []string{"minimal", "full", "redundant"}[lay.Paren], levels: 2})
 			c.Feature("context:" + ctx)
 			c.Feature("side-effecting-operand-or-argument")
+		}
+	}
+	if c.Idx != 0 {
+		// equality and ordering of numbers a few units in the last place apart (no tolerance anywhere)
+		for k := 0; k < 4; k++ {
+			pair := r.Pick("c1", "c2", "c3", "c4", "c5")
+			a, b := hast.Var(pair+"a"), hast.Var(pair+"b")
+			if r.Bool() {
+				a, b = b, a
+			}
+			var e *hast.Expr
+			switch r.Intn(4) {
+			case 0:
+				e = hast.Bin(r.Pick("==", "!=", "<", "<=", ">", ">="), a, b)
+			case 1:
+				e = hast.Bin(r.Pick("==", "!="), hast.Bin("+", hast.Num("0.1"), hast.Num("0.2")), hast.Num("0.3"))
+			case 2:
+				e = hast.Bin(r.Pick("==", "!="), hast.Bin("-", hast.Num("1"), hast.Num("0.9")), hast.Num("0.1"))
+			default:
+				e = hast.Not(hast.Bin("==", a, b))
+			}
+			lay := &hast.Layout{Paren: r.Intn(3), Spell: true, R: r.Fork(), Stats: map[string]int{}}
+			st, ctx := wrapExpr(r, e, hast.TBool, &id, lay)
+			items = append(items, exprItem{stmt: st, printed: lay.Expr(e), kind: []string{"minimal", "full", "redundant"}[lay.Paren], levels: 2})
+			c.Feature("context:" + ctx)
+			c.Feature("comparison-of-numbers-a-few-ulps-apart")
 		}
 	}
 	p.runItems(c, items)
